@@ -78,7 +78,7 @@ def bounds(db, ctx):
                 vals = []
                 for p in (-1, 0, 1):
                     v = eval3(cond, bound_cmp_evaluator(isb, p))
-                    vals.append(None if v is None else (v == pol))
+                    vals.append(bool(v is not None and v == pol))
                 xs = render(x) if x else "?"
                 narrow = narrowing_casts(x) if x else []
                 signed_ok = True
